@@ -139,8 +139,17 @@ func hRegexpMatch(re *regexp.Regexp, b []byte) bool {
 // are not the subject of any harness); natively the real one runs.
 func hMarshal(v interface{}) ([]byte, error) { return []byte("{}"), nil }
 
-// hLimit: the read rate limiter never throttles.
-func hLimit(l *rate.Limiter) bool { return false }
+// hLimit: the read rate limiter answers as scripted (one answer per call), then never throttles.
+var hLimitScript []bool
+
+func hLimit(l *rate.Limiter) bool {
+	if len(hLimitScript) == 0 {
+		return false
+	}
+	r := hLimitScript[0]
+	hLimitScript = hLimitScript[1:]
+	return r
+}
 
 // hBinaryMarshal stands in for kelindar/binary.Marshal (reflection) where only a survey
 // request body is built and the surveyor stub ignores it.
